@@ -77,7 +77,7 @@ def judge_format(rgb, fmt):
 def judge_case(case):
     if case["kind"] == "format":
         return judge_format(case["rgb"], case["fmt"]) or []
-    if case["kind"] == "mapping":
+    if case["kind"] in ("mapping", "spelled"):
         from mc import sweep
 
         return sweep.judge_mapping_case(case)
